@@ -628,6 +628,19 @@ def c07_closed(m, o):
         if err > 200 * (atol_ + rtol_ * n_):
             viol.append("default solver with rtol=%g atol=%g on a chain of size %g: max error %.4g, i.e. %.3g x (atol + rtol x size)"
                         % (rtol_, atol_, n_, err, err / (atol_ + rtol_ * n_)))
+    # one model object run with loose, then tight, then loose tolerances (new option dicts each time): every run is
+    # within a small multiple of ITS tolerances
+    mm = CompartmentalModel([0.0, 10.0], ["A", "B"], ["A"], timestep=0.5)
+    mm.set_initial_population({"A": 1000.0})
+    mm.add_transition_flow("decay", 0.7, "A", "B")
+    exact_ = 1000.0 * np.exp(-0.7 * np.asarray(mm.times, dtype=float))
+    for tol in (1e-2, 1e-9, 1e-5, 1e-9):
+        mm.run(solver="solve_ivp", solver_args={"rtol": tol, "atol": tol}, jit=False)
+        err = np.abs(np.asarray(mm.outputs, dtype=float)[:, 0] - exact_).max()
+        checks += 1
+        if err > 50 * tol * 1001:
+            viol.append("one model object run again with rtol=atol=%g (after runs with other tolerances): max error %.4g against the exact solution, "
+                        "bound %.3g" % (tol, err, 50 * tol * 1001))
     # a narrow smooth pulse after a long stretch in which nothing happens (all rates exactly zero): closed form
     # S(T) = S0 exp(-a * integral of the Gaussian), on three output grids
     from summer2.parameters import Function as Fn_, Time as Time_
@@ -737,6 +750,27 @@ def c16(m, o):
             got = [float(fp_(t, pp)) for t in (4.0, 6.0, 7.2, 7.5, 9.0)]
             if got != [1.0, pk, pk, 3.0, 3.0]:
                 viol.append("piecewise with breakpoints [5, Parameter(7.5)] and values [1, Parameter(0.7), 3] gives %s at 4, 6, 7.2, 7.5, 9" % got)
+        # evenly spaced breakpoints whose step is not a binary fraction (decimal, monthly, literal lists and arrays),
+        # evaluated AT the breakpoints (the intervals are left-closed) and beside them
+        if case % 3 == 1:
+            k_ = rng.randint(3, 12)
+            b0_, st_ = rng.choice([1, 1000, 0.3]), rng.choice([0.1, 0.7, 1 / 3, 0.05])
+            grids_ = [[j / 10 for j in range(k_)], [0.1 * (j + 1) for j in range(k_)], [2020 + j / 12 for j in range(k_)],
+                      [b0_ + j * st_ for j in range(k_)]]
+            for gi_, bp_ in enumerate(grids_):
+                vals_ = [float(j) for j in range(len(bp_) + 1)]
+                for form_ in (list(bp_), np.array(bp_)):
+                    fg_ = stf.get_time_callable(stf.get_piecewise_function(form_, list(vals_) if gi_ % 2 else np.array(vals_)), jit_compile=False)
+                    xs_ = sorted(list(bp_) + [b_ + 1e-9 for b_ in bp_] + [b_ - 1e-9 for b_ in bp_])
+                    exp_ = [vals_[int((x_ >= np.array(bp_)).sum())] for x_ in xs_]
+                    got_ = [float(fg_(x_, {})) for x_ in xs_]
+                    gv_ = list(np.asarray(fg_(np.array(xs_), {}), dtype=float))
+                    checks += 2
+                    for x_, g_, e_, v_ in zip(xs_, got_, exp_, gv_):
+                        if g_ != e_ or v_ != e_:
+                            viol.append("piecewise with evenly spaced breakpoints %s values 0..%d at x=%r: %r (vectorised %r), values[#{b<=x}] = %r"
+                                        % ([round(b_, 6) for b_ in bp_[:4]] + ["..."], len(bp_), x_, g_, v_, e_))
+                            break
         # one breakpoint
         f1 = stf.get_time_callable(stf.get_piecewise_function([xs[0]], [1.0, 2.0]), jit_compile=False)
         checks += 1
@@ -1460,6 +1494,29 @@ def c18_disparity(m, o):
             j = int(bad[0])
             viol.append("default solver, S=%g E=%g progression %g recovery %g contact %g: compartment %s falls to %r although it never exceeds %r"
                         % (n_, e0, sigma, gamma, beta, mm.compartments[j], float(lo[j]), float(np.abs(out[:, j]).max())))
+    # a default run after somebody ran ANOTHER model object with very loose (or tight) caller-supplied solver options
+    # in the same session: it is held to the default tolerances all the same
+    def seir_():
+        ms = CompartmentalModel([0.0, 20.0], ["S", "E", "I", "R"], ["I"], timestep=0.5)
+        ms.set_initial_population({"S": 990.0, "I": 10.0})
+        ms.add_infection_frequency_flow("infection", 8.0, "S", "E")
+        ms.add_transition_flow("progression", 5.0, "E", "I")
+        ms.add_transition_flow("recovery", 3.0, "I", "R")
+        return ms
+    for sa_ in ({"rtol": 0.5, "atol": 0.5}, {"rtol": 0.3}, {"atol": 50.0}):
+        seir_().run(solver="solve_ivp", jit=False, solver_args=dict(sa_))
+        mm = seir_()
+        mm.run(solver="solve_ivp", jit=False)
+        out = np.asarray(mm.outputs, dtype=float)
+        checks += 1
+        lo = out.min(axis=0)
+        own = 20 * 1.4e-4 * (1 + np.abs(out).max(axis=0))
+        bad = np.where(~(lo >= -own))[0]
+        if len(bad):
+            j = int(bad[0])
+            viol.append("default solver on a fresh model after another model object was run with solver_args=%s: compartment %s falls to %r "
+                        "although it never exceeds %r" % (sa_, mm.compartments[j], float(lo[j]), float(np.abs(out[:, j]).max())))
+            break
     # many internal steps between two output times (a fast exchange that stays positive; outputs far apart): still
     # the solution, hence not negative
     for which in o.get("long", ["stiff", "sparse"]):
@@ -2375,9 +2432,84 @@ def c11_caller_objects(m, o):
     return {"checks": checks, "violations": viol}
 
 
+def c08_cumgrid(m, o):
+    """cumulative outputs that start at a model time, on time grids whose step is a decimal fraction (the start time is
+    given as the model's own times[k]): zero before the start, the running sum of the source from there on"""
+    from summer2 import CompartmentalModel
+    viol, checks = [], 0
+    for (t0, t1, h, solver) in o.get("grids", [(1.0, 2.0, 0.1, "euler"), (0.0, 5.0, 0.1, "euler"), (2000.0, 2001.0, 0.1, "rk4"),
+                                                (0.0, 3.0, 0.3, "euler"), (5.0, 12.0, 0.7, "rk4"), (1.0, 4.5, 0.7, "euler")]):
+        mm = CompartmentalModel([t0, t1], ["S", "I", "R"], ["I"], timestep=h)
+        mm.set_initial_population({"S": 990.0, "I": 10.0})
+        mm.add_infection_frequency_flow("inf", 1.5, "S", "I")
+        mm.add_transition_flow("rec", 0.4, "I", "R")
+        mm.request_output_for_flow("inc", "inf")
+        mm.request_output_for_compartments("prev", ["I"])
+        n = len(mm.times)
+        ks = list(range(1, n - 1))
+        for k in ks:
+            mm.request_cumulative_output("cinc_%d" % k, "inc", start_time=mm.times[k])
+            if k % 3 == 0:
+                mm.request_cumulative_output("cprev_%d" % k, "prev", start_time=float(mm.times[k]))
+        mm.run(solver=solver, jit=False)
+        do = mm.get_derived_outputs_df()
+        for k in ks:
+            for src, nm in (("inc", "cinc_%d" % k), ("prev", "cprev_%d" % k)):
+                if nm not in do.columns:
+                    continue
+                srcv = np.asarray(do[src], dtype=float)
+                exp = np.concatenate([np.zeros(k), np.cumsum(srcv[k:])])
+                got = np.asarray(do[nm], dtype=float)
+                checks += 1
+                if np.abs(got - exp).max() > 1e-9 * (1 + np.abs(exp).max()):
+                    i = int(np.abs(got - exp).argmax())
+                    viol.append("times %g..%g step %g: cumulative %s from start_time=times[%d]=%r: at index %d (t=%r) %r, running sum of the "
+                                "source from the start time gives %r" % (t0, t1, h, src, k, float(mm.times[k]), i, float(mm.times[i]), float(got[i]), float(exp[i])))
+    return {"checks": checks, "violations": viol[:12]}
+
+
+def c09_superseded(m, o):
+    """known finding (probe): a parameter in an infectiousness Multiply that later Overwrites replace for every compartment
+    cannot influence the results, yet it is reported (and required) as an input parameter; flow adjustments prune theirs"""
+    from summer2 import CompartmentalModel, Stratification
+    from summer2.parameters import Parameter
+    from summer2.adjust import Multiply, Overwrite
+    viol, checks = [], 0
+
+    def build():
+        mm = CompartmentalModel([0, 5], ["S", "I", "R"], ["I"])
+        mm.set_initial_population(dict(S=990, I=10, R=0))
+        mm.add_infection_frequency_flow("infection", 0.5, "S", "I")
+        mm.add_transition_flow("rec", 0.2, "I", "R")
+        s = Stratification("age", ["y", "o"], ["S", "I", "R"])
+        s.add_infectiousness_adjustments("I", {"y": Multiply(Parameter("m")), "o": None})
+        s.set_flow_adjustments("rec", {"y": Multiply(Parameter("q")), "o": None})
+        mm.stratify_with(s)
+        s2 = Stratification("loc", ["u", "r"], ["S", "I", "R"])
+        s2.add_infectiousness_adjustments("I", {"u": Overwrite(0.3), "r": Overwrite(0.6)})
+        s2.set_flow_adjustments("rec", {"u": Overwrite(0.3), "r": Overwrite(0.1)})
+        mm.stratify_with(s2)
+        return mm
+    mm = build()
+    reported = set(mm.get_input_parameters())
+    outs = []
+    for v in (0.5, 5.0):
+        mm.run({"m": v, "q": v}, solver="euler", jit=False)
+        outs.append(np.asarray(mm.outputs, dtype=float).copy())
+    checks += 2
+    same = float(np.abs(outs[0] - outs[1]).max()) == 0.0
+    if same and reported:
+        viol.append("superseded-infectiousness-parameter: age adjusts the infectiousness of I by Multiply(Parameter('m')), loc then Overwrites it for "
+                    "every I compartment (and likewise the rate of 'rec' with Parameter('q')): the outputs are identical for m = q = 0.5 and 5, "
+                    "get_input_parameters() = %s" % sorted(reported))
+    elif not same and not {"m", "q"} & reported:
+        viol.append("superseded parameters: the outputs depend on m / q, which get_input_parameters() does not report (%s)" % sorted(reported))
+    return {"checks": checks, "violations": viol}
+
+
 MODEL_ORACLES = {"c02_traj": c02_traj, "c13": c13, "c12": c12, "c12_dates": c12_dates,
                  "c07": c07, "c07_closed": c07_closed, "c16": c16, "c14": c14, "c08": c08, "c09": c09, "c10": c10, "c04": c04, "c18_traj": c18_traj, "c06": c06, "c05": c05, "c03": c03, "c15": c15, "c11": c11, "c10_axis": c10_axis, "c12_grid": c12_grid,
-                 "c18_disparity": c18_disparity, "c18_timefuncs": c18_timefuncs, "c11_shared_keys": c11_shared_keys, "c11_caller_objects": c11_caller_objects}
+                 "c18_disparity": c18_disparity, "c18_timefuncs": c18_timefuncs, "c11_shared_keys": c11_shared_keys, "c11_caller_objects": c11_caller_objects, "c08_cumgrid": c08_cumgrid, "c09_superseded": c09_superseded}
 
 
 def run_oracle(m, o):
